@@ -327,6 +327,22 @@ func buildSource(o Op, dir string, log *evLog) (fsutil.FS, *memFS, []interface{}
 		}
 		fs = ffs
 	}
+	if fo, ok := o["sfilter2"].(map[string]interface{}); ok {
+		// a second filter stacked on the first one
+		f := Op(fo)
+		opt := &fsutil.FilterOpt{}
+		if _, ok := fo["include"]; ok {
+			opt.IncludePatterns = hexList(f.arr("include"))
+		}
+		if _, ok := fo["exclude"]; ok {
+			opt.ExcludePatterns = hexList(f.arr("exclude"))
+		}
+		ffs, err := fsutil.NewFilterFS(fs, opt)
+		if err != nil {
+			return nil, nil, nil, err
+		}
+		fs = ffs
+	}
 	return fs, mfs, view, nil
 }
 
